@@ -318,6 +318,9 @@ MOLS = {
     "O": dict(atom="O 0 0 0", spin=2, charge=0),
     "He": dict(atom="He 0 0 0", spin=0, charge=0),
     "Li": dict(atom="Li 0 0 0", spin=1, charge=0),
+    "CH4": dict(atom="C 0 0 0; H 0.63 0.63 0.63; H -0.63 -0.63 0.63; H -0.63 0.63 -0.63; H 0.63 -0.63 -0.63", spin=0, charge=0),
+    "H6": dict(atom="; ".join("H 0 0 %.2f" % (0.8 * i) for i in range(6)), spin=0, charge=0),
+    "H9": dict(atom="; ".join("H %.2f %.2f 0" % (0.9 * (i % 3), 0.9 * (i // 3)) for i in range(9)), spin=1, charge=0),
 }
 
 
